@@ -366,7 +366,8 @@ theorem runEffs_good (si : SegInst) (es : List Eff) : ∀ (i : Nat) (s : State),
   | case7 owner gs rest _ _ _ ih => intro i s hc h hg; exact clearing_step si _ rfl _ (fun i s => ih i s hc) i s h hg
   | case8 owner sc gs rest ih => intro i s hc h hg; exact clearing_step si _ rfl _ (fun i s => ih i s hc) i s h hg
   | case9 owner gs rest ih => intro i s hc h hg; exact clearing_step si _ rfl _ (fun i s => ih i s hc) i s h hg
-  | case10 => intro i s hc; cases hc
+  | case10 owner attr gs rest ih => intro i s hc h hg; exact clearing_step si _ rfl _ (fun i s => ih i s hc) i s h hg
+  | case11 => intro i s hc; cases hc
 
 /-! ### segments and histories -/
 
